@@ -27,6 +27,17 @@ E1 (bounded exhaustive enumeration).  One *unit* = one mesh pattern; on it, in a
            through the alias; every later answer must equal the first one, must not hold the
            sentinel, and a licence that appeared is checked against the containment oracle
 
+  derived  (E2, mc/explore.py) breadth-first search over histories on a small pool of start
+           patterns: use-operations that may leave hidden state on an object (rotate(k), reverse,
+           complement, inverse, all_syms, one can_shade / can_simul_shade query, shadable_boxes,
+           hash, ==) and derive-operations whose result becomes a new live object (shade, add_point,
+           add_increase, add_decrease, sub_mesh_pattern, the result of rotate(k) / reverse /
+           complement / inverse).  After every step every live object must answer can_shade (all
+           cells), can_simul_shade (adjacent pairs), shadable_boxes, rotate(k), ==, hash exactly
+           like a freshly constructed equal pattern, and its licences must be sound (reference
+           lemma, else containment search).  State = values of the live objects + every instance
+           attribute beyond pattern/shading (recursively) + module/class level containers.
+
 All semantic comparisons use the reference only (never the library's own containment); the library
 supplies just the answer under test.  Replays re-run the whole unit (after a warm-up unit, so that
 state kept between calls shows up again) and report the recorded query iff it still fails.
@@ -42,7 +53,7 @@ from ..core import Partial
 PROPERTY = "C18"
 LEVEL = "exploration"
 
-ALL_SUBS = ("lemma1", "simul", "table", "addpoint", "addpair", "lookups", "render", "fresh")
+ALL_SUBS = ("lemma1", "simul", "table", "addpoint", "addpair", "lookups", "render", "fresh", "derived")
 
 # filled by run()/replay() before any unit is evaluated (inherited by forked workers)
 TEXTS = []          # S<=N
@@ -620,6 +631,311 @@ def eval_unit(part, lib, patt, shm, cfg, warm=None):
 
 
 # --------------------------------------------------------------------------------------------
+# derived objects: history search
+# --------------------------------------------------------------------------------------------
+
+_BASELINE = None      # module / class level containers of permuta.patterns.meshpatt at import time
+
+
+def _containers(lib):
+    import sys
+    mod = sys.modules[lib.MeshPatt.__module__]
+    out = []
+    for owner, name_prefix in ((mod, ""), (lib.MeshPatt, "MeshPatt.")):
+        for k_, v in sorted(vars(owner).items()):
+            if k_.startswith("__"):
+                continue
+            if isinstance(v, (dict, list, set)) or hasattr(v, "cache_info"):
+                out.append((name_prefix + k_, v))
+    return out
+
+
+def take_baseline(lib):
+    """Remember the contents of every module/class level container (memo tables a change may
+    introduce) so that every replayed history starts from the state at import time."""
+    global _BASELINE
+    import copy
+    base = {}
+    for name, v in _containers(lib):
+        if not hasattr(v, "cache_info"):
+            try:
+                base[name] = copy.copy(v)
+            except Exception:  # noqa
+                pass
+    _BASELINE = base
+
+
+def reset_library_state(lib):
+    for name, v in _containers(lib):
+        if hasattr(v, "cache_clear"):
+            v.cache_clear()
+        elif _BASELINE is not None and name in _BASELINE:
+            old = _BASELINE[name]
+            v.clear()
+            if isinstance(v, list):
+                v.extend(old)
+            else:
+                v.update(old)
+        elif _BASELINE is not None:
+            v.clear()                    # a container that did not exist at import time
+
+
+def _value(o):
+    return (tuple(int(v) for v in o.pattern), tuple(sorted(_cell(c) for c in o.shading)))
+
+
+def _freeze_hidden(v, depth):
+    if depth > 6:
+        return "..."
+    if isinstance(v, dict):
+        return ("dict",) + tuple((_freeze_hidden(a, depth + 1), _freeze_hidden(b, depth + 1))
+                                 for a, b in v.items())          # insertion order is state
+    if isinstance(v, (list, tuple)) and not hasattr(v, "shading"):
+        if hasattr(v, "__dict__") and v.__dict__:                 # a Perm with its memo slots
+            return ("seq", tuple(v), tuple((a, b is not None) for a, b in v.__dict__.items()))
+        return ("seq",) + tuple(_freeze_hidden(a, depth + 1) for a in v)
+    if isinstance(v, (set, frozenset)):
+        return ("set",) + tuple(sorted(repr(_freeze_hidden(a, depth + 1)) for a in v))
+    if isinstance(v, (int, str, float, bool)) or v is None:
+        return v
+    if hasattr(v, "pattern") and hasattr(v, "shading"):
+        return ("mesh", _value(v), _hidden(v, depth + 1))
+    return repr(type(v))
+
+
+def _hidden(o, depth=0):
+    """Everything an instance carries beyond the two constructor fields."""
+    d = getattr(o, "__dict__", {})
+    out = []
+    for k_, v in d.items():
+        if k_ == "shading":
+            continue
+        if k_ == "pattern":
+            pd = getattr(v, "__dict__", None)
+            if pd:
+                out.append(("pattern.__dict__", tuple((a, b is not None) for a, b in pd.items())))
+            continue
+        out.append((k_, _freeze_hidden(v, depth + 1)))
+    return tuple(out)
+
+
+def _tuplize(x):
+    return tuple(_tuplize(a) for a in x) if isinstance(x, (list, tuple)) else x
+
+
+DERIVE_OPS = ("shade", "add_point", "add_increase", "add_decrease", "sub_mesh_pattern",
+              "rotate_live", "reverse_live", "complement_live", "inverse_live")
+
+
+class DerivedModel:
+    def __init__(self, lib, start, depth, max_derive, max_live, all_boxes, always_check=False):
+        self.lib = lib
+        self.start = (tuple(start[0]), tuple(sorted(tuple(c) for c in start[1])))
+        self.depth, self.max_derive, self.max_live = depth, max_derive, max_live
+        self.all_boxes = all_boxes
+        self.always_check = always_check
+        self.checked = set()
+        self.oracle_runs = 0
+
+    # ---- menu ----
+    def boxes(self, patt, shading):
+        k = len(patt)
+        free = [c for c in R.all_cells(k) if c not in shading]
+        if self.all_boxes and k <= 2:
+            return free
+        pick = []
+        for c in ([free[0], free[-1]] if free else []) + [c for c in free if c[0] + c[1] == k][:1]:
+            if c not in pick:
+                pick.append(c)
+        return pick
+
+    def enabled(self, canon, hist):
+        vals = canon[0]
+        nder = sum(1 for op in hist if op[0] in DERIVE_OPS)
+        for i, (patt, sh) in enumerate(vals):
+            k = len(patt)
+            shading = set(sh)
+            for t in (1, 2, 3, -1):
+                yield ("rotate", i, t)
+            for name in ("reverse", "complement", "inverse", "all_syms", "shadable_boxes", "hash", "eq"):
+                yield (name, i)
+            box0 = (1, patt[0] + 1) if k else (0, 0)
+            yield ("can_shade", i, box0)
+            if k:
+                yield ("can_simul_shade", i, box0, (1, patt[0]))
+            if nder >= self.max_derive or len(vals) >= self.max_live:
+                continue
+            bx = self.boxes(patt, shading)
+            for c in bx:
+                yield ("shade", i, c)
+            for c in bx[:2]:
+                yield ("add_point", i, c, "none")
+                yield ("add_point", i, c, "east")
+            for c in bx[:1]:
+                yield ("add_increase", i, c)
+                yield ("add_decrease", i, c)
+            if k:
+                yield ("sub_mesh_pattern", i, tuple(range(k - 1)))
+                yield ("sub_mesh_pattern", i, (0,))
+            for t in (1, 2, 3):
+                yield ("rotate_live", i, t)
+            for name in ("reverse_live", "complement_live", "inverse_live"):
+                yield (name, i)
+
+    # ---- executing one operation ----
+    def apply(self, op, live):
+        name, i = op[0], op[1]
+        o = live[i]
+        dirs = dict(self.lib.dirs)
+        if name == "rotate":
+            o.rotate(op[2])
+        elif name in ("reverse", "complement", "inverse", "all_syms", "shadable_boxes"):
+            getattr(o, name)()
+        elif name == "hash":
+            hash(o)
+        elif name == "eq":
+            o == self.lib.MeshPatt(self.lib.Perm(_value(o)[0]), _value(o)[1])   # noqa
+        elif name == "can_shade":
+            o.can_shade(op[2])
+        elif name == "can_simul_shade":
+            o.can_simul_shade(op[2], op[3])
+        elif name == "shade":
+            live.append(o.shade(op[2]))
+        elif name == "add_point":
+            live.append(o.add_point(op[2], dirs[op[3]]))
+        elif name == "add_increase":
+            live.append(o.add_increase(op[2]))
+        elif name == "add_decrease":
+            live.append(o.add_decrease(op[2]))
+        elif name == "sub_mesh_pattern":
+            live.append(o.sub_mesh_pattern(op[2]))
+        elif name == "rotate_live":
+            live.append(o.rotate(op[2]))
+        elif name in ("reverse_live", "complement_live", "inverse_live"):
+            live.append(getattr(o, name[:-5])())
+        else:
+            raise ValueError("unknown operation %r" % (op,))
+
+    # ---- observers ----
+    def observe(self, o):
+        patt, sh = _value(o)
+        k = len(patt)
+        cells = R.all_cells(k)
+        obs = {}
+        for c in cells:
+            obs["can_shade %r" % (c,)] = X.norm_result(o.can_shade(c))
+        for a in cells:
+            for b in ((a[0] + 1, a[1]), (a[0], a[1] + 1)):
+                if b[0] <= k and b[1] <= k:
+                    obs["can_simul_shade %r %r" % (a, b)] = X.norm_result(o.can_simul_shade(a, b))
+        obs["shadable_boxes"] = X.norm_result(o.shadable_boxes())
+        for t in (1, 2, 3, -1):
+            obs["rotate %d" % t] = list(_value(o.rotate(t)))
+        obs["hash"] = hash(o)
+        return obs
+
+    def oracle(self, live):
+        self.oracle_runs += 1
+        out = []
+        lib = self.lib
+        for i, o in enumerate(live):
+            try:
+                patt, sh = _value(o)
+                fresh = lib.MeshPatt(lib.Perm(patt), list(sh))
+                mine = self.observe(o)
+                ref = self.observe(fresh)
+                eq = (o == fresh, fresh == o)
+            except Exception as exc:  # noqa
+                out.append({"live object": i, "exception": repr(exc)})
+                continue
+            if eq != (True, True):
+                out.append({"live object": i, "value": [list(patt), list(sh)],
+                            "== with a freshly constructed equal pattern": list(eq)})
+            diff = [k_ for k_ in ref if mine.get(k_) != ref[k_]]
+            shading = set(sh)
+            k = len(patt)
+            unsound = []
+            for key, val in mine.items():          # licences of the live object must be sound
+                if not key.startswith("can_") or not (isinstance(val, list) and val[1]):
+                    continue
+                cs = [tuple(int(v) for v in part_.strip("() ").split(","))
+                      for part_ in key.split(" ", 1)[1].replace(") (", ")|(").split("|")]
+                if len(cs) == 1:
+                    ok = X.ref_lemma_points(patt, shading, cs[0]) or cs[0] in shading
+                else:
+                    ok = X.ref_simul_points(patt, shading, cs[0], cs[1])
+                if ok:
+                    continue
+                if patt in RICH and len(patt) < 6:
+                    sem = sem_of(patt)
+                    shm = X.mask_of(k, shading)
+                    before, after = sem.contain(shm), sem.contain(shm | X.mask_of(k, cs))
+                    if before != after:
+                        unsound.append({"query": key, "answer": val,
+                                        "contains the pattern but not the shaded one":
+                                            list(TEXTS[X.first_bit(before ^ after)])})
+            if diff or unsound:
+                out.append({"live object": i, "value": [list(patt), [list(c) for c in sh]],
+                            "differs from a freshly constructed equal pattern in": diff[:6],
+                            "live": {d: mine.get(d) for d in diff[:3]},
+                            "fresh": {d: ref[d] for d in diff[:3]},
+                            "unsound licences": unsound[:3],
+                            "hidden state": repr(_hidden(o))[:300]})
+        return out
+
+    def build(self, hist):
+        lib = self.lib
+        reset_library_state(lib)
+        live = [lib.MeshPatt(lib.Perm(self.start[0]), list(self.start[1]))]
+        viols = []
+        last = len(hist) - 1
+        for hi, op in enumerate(hist):
+            try:
+                self.apply(op, live)
+            except Exception as exc:  # noqa
+                if hi == last:
+                    viols.append({"op": list(op), "exception": repr(exc)})
+        canon = (tuple(_value(o) for o in live), tuple(_hidden(o) for o in live),
+                 tuple(repr((name, v.cache_info().currsize if hasattr(v, "cache_info")
+                                   else X.norm_result(v))) for name, v in _containers(lib)))
+        derive = bool(hist) and hist[-1][0] in DERIVE_OPS
+        if self.always_check or derive or canon not in self.checked:
+            self.checked.add(canon)
+            viols += self.oracle(live)
+        return canon, viols
+
+
+DERIVED_POOL = [
+    ((), ()), ((0,), ()), ((0, 1), ()), ((1, 0), ()),
+    ((0,), ((0, 1),)), ((0, 1), ((0, 0), (2, 1))), ((1, 0), ((1, 1),)), ((), ((0, 0),)),
+]
+
+
+def shard_derived(shard):
+    from ..explore import bfs
+    start, depth, max_derive, max_live, all_boxes, max_states = shard
+    lib = Lib()
+    part = Partial()
+    model = DerivedModel(lib, start, depth, max_derive, max_live, all_boxes)
+
+    def on_violation(hist, v):
+        if part.nviol < part.MAXV:
+            part.violation("derived", {"start": [list(start[0]), [list(c) for c in start[1]]],
+                                       "history": [list(op) for op in hist]}, v)
+        else:
+            part.nviol += 1
+
+    st = bfs([()], None, model.build, depth, on_violation, enabled=model.enabled, max_states=max_states)
+    part.add(st.transitions, model.oracle_runs)
+    part.bump("derived_states", st.states)
+    part.bump("derived_transitions", st.transitions)
+    part.bump("derived_oracle_runs", model.oracle_runs)
+    if st.sample_histories:
+        part.sample({"derived: start": start, "history": st.sample_histories[-1]}, cap=1)
+    return part, (st.states, st.transitions, st.depth_completed, getattr(st, "capped", False))
+
+
+# --------------------------------------------------------------------------------------------
 # universes and shards
 # --------------------------------------------------------------------------------------------
 
@@ -735,6 +1051,8 @@ CFG = {}
 def shard_units(shard):
     patt, masks, cfgname = shard
     cfg = CFG[cfgname]
+    if not (cfg["subs"] - {"derived"}):
+        return Partial()
     lib = Lib()
     part = Partial()
     prev = masks[0]
@@ -898,9 +1216,36 @@ def run(ctx, only=None):
                    "can_shade, can_simul_shade lower-left cell first; no table", n + 2))
     ctx.bounds.update(bounds)
     e0 = ctx.evals
-    ctx.pmap(shard_units, shards)
+    unit_subs = subs - {"derived"}
+    if unit_subs:
+        ctx.pmap(shard_units, shards)
     ctx.section("units", shards=len(shards), evaluations=ctx.evals - e0,
                 **{k_: v for k_, v in ctx.counters.items() if not k_.startswith("sig:")})
+    if "derived" in subs:
+        take_baseline(Lib())
+        depth, max_derive, max_live = (3, 2, 3) if quick else (4, 2, 3)
+        all_boxes = not quick
+        max_states = 20000 if quick else 60000
+        dshards = [(st, depth, max_derive, max_live, all_boxes, max_states) for st in DERIVED_POOL]
+        res = ctx.pmap(shard_derived, dshards)
+        ctx.states = sum(r[0] for r in res)
+        ctx.transitions = sum(r[1] for r in res)
+        ctx.traces = ctx.transitions
+        if any(r[3] for r in res):
+            ctx.cap("derived: state cap reached (hidden state multiplies the states)")
+        ctx.bounds["derived"] = {
+            "start patterns": [[list(a), [list(c) for c in b]] for a, b in DERIVED_POOL],
+            "depth": depth, "derive operations per history": max_derive, "live objects": max_live,
+            "boxes for derive operations": "every unshaded box (length <= 2), else first/last/anti-diagonal"
+                                           if all_boxes else "first, last and one anti-diagonal unshaded box",
+            "use operations": "rotate(1,2,3,-1), reverse, complement, inverse, all_syms, shadable_boxes, hash, "
+                              "==, can_shade and can_simul_shade at the first point",
+            "derive operations": list(DERIVE_OPS),
+            "observers compared with a freshly constructed equal pattern":
+                "can_shade on all cells, can_simul_shade on all adjacent pairs, shadable_boxes, "
+                "rotate(1,2,3,-1), ==, hash; licences also against the reference lemma / containment"}
+        ctx.section("derived", states=ctx.states, transitions=ctx.transitions,
+                    oracle_runs=ctx.counters.get("derived_oracle_runs"))
 
 
 # --------------------------------------------------------------------------------------------
@@ -917,6 +1262,21 @@ def replay(ctx, rec):
     from ..core import jsonable
     case = rec["case"]
     sub = rec["sub"]
+    if sub == "derived":
+        lib = Lib()
+        if not TEXTS:
+            build_tables(None, 6, 5)
+        if _BASELINE is None:
+            take_baseline(lib)
+        start = (tuple(case["start"][0]), tuple(tuple(c) for c in case["start"][1]))
+        hist = tuple(_tuplize(op) for op in case["history"])
+        model = DerivedModel(lib, start, len(hist), 99, 99, True, always_check=True)
+        for i in range(0, len(hist) + 1):
+            _, viols = model.build(hist[:i])
+            if viols:
+                ctx.violation("derived", case, viols[0])
+                break
+        return
     patt = tuple(case["patt"])
     k = len(patt)
     N = int(case.get("N", 6))
